@@ -76,7 +76,7 @@ Hypothesis rc_bal : forall id c st, bal st -> sres_bal (rc id c st).
 
 Lemma process_domain_bal st x d : bal st -> sres_bal (process_domain rcs st x d).
 Proof.
-  intros H. unfold process_domain. destruct x as [[]|v a| | |]; cbn [sres_bal]; auto.
+  intros H. unfold process_domain. destruct (wk (st_smap st) x) as [[]|v a| | |]; cbn [sres_bal]; auto.
   - destruct (fd_contains d z); cbn [sres_bal]; auto.
   - unfold update_var_domain, resolve_storable_domain.
     destruct (find_id v (st_dstore st)) as [old|].
@@ -142,7 +142,7 @@ Proof.
            cbn [sres_bal]; apply bal_with_constraint_id; auto]]).
   - destruct (wk (st_smap st) u); cbn [sres_bal]; auto; try (apply bal_with_constraint_id; auto);
       (destruct (forallb _ _); cbn [sres_bal]; auto;
-       destruct (strictly_increasing _); cbn [sres_bal]; auto; apply bal_with_new_constraint; auto).
+       destruct (strictly_increasing _); cbn [sres_bal]; auto; apply rc_bal; apply bal_bump; auto).
   - match goal with |- sres_bal (match ?X with _ => _ end) => destruct X as [[[[x n']|]|]|site] end; cbn [sres_bal]; auto.
     destruct n' as [|z n']; [cbn [sres_bal]; apply bal_with_new_constraint; auto|].
     destruct (fd_from_vec (z :: n')); cbn [sres_bal]; auto.
